@@ -797,9 +797,49 @@ impl<'a, 'b, 'ast> Visit<'ast> for Rewriter<'a, 'b> {
                 }
                 visit::visit_expr(self, e);
             }
+            Expr::Assign(a) if self.fx.ops => {
+                // R15 (ops mode): assignment through IndexMut on a Vec, which Verus does not support, spelled with Vec::set
+                //   V[i] = e        ->  V.set(i, e)
+                //   V[i].f = e      ->  { let mut e__ = V[i].clone(); e__.f = e; V.set(i, e__); }
+                let n = self.edits.len();
+                match &*a.left {
+                    Expr::Index(ix) => {
+                        let (lo, _) = self.fx.rng(a.span());
+                        let (rlo, rhi) = self.fx.rng(a.right.span());
+                        let recv = self.fx.text(ix.expr.span()).to_string();
+                        let idx = self.fx.text(ix.index.span()).to_string();
+                        self.edit(lo, rlo, format!("{}.set({}, ", recv, idx), "R15");
+                        self.edit_close(rhi, ")".to_string(), "R15");
+                        self.visit_expr(&a.right);
+                        return;
+                    }
+                    Expr::Field(f) => {
+                        if let Expr::Index(ix) = &*f.base {
+                            let (lo, _) = self.fx.rng(a.span());
+                            let (rlo, rhi) = self.fx.rng(a.right.span());
+                            let recv = self.fx.text(ix.expr.span()).to_string();
+                            let idx = self.fx.text(ix.index.span()).to_string();
+                            let fld = self.fx.text(f.member.span()).to_string();
+                            self.edit(lo, rlo, format!("{{ let mut e__{n} = {recv}[{idx}].clone(); e__{n}.{fld} = ", n = n, recv = recv, idx = idx, fld = fld), "R15");
+                            self.edit_close(rhi, format!("; {recv}.set({idx}, e__{n}); }}", n = n, recv = recv, idx = idx), "R15");
+                            self.visit_expr(&a.right);
+                            return;
+                        }
+                        visit::visit_expr(self, e);
+                    }
+                    _ => visit::visit_expr(self, e),
+                }
+            }
             Expr::Call(c) => {
                 if let Expr::Path(p) = &*c.func {
                     let ps = path_str(&p.path);
+                    if self.fx.ops && ps == "Vec::from" && c.args.len() == 1 {
+                        // R9: Vec::from(slice) -> slice.to_vec() (element clone is the identity at the types in use)
+                        let (lo, hi) = self.fx.rng(c.span());
+                        let arg = self.fx.text(c.args[0].span()).to_string();
+                        self.edit(lo, hi, format!("({}).to_vec()", arg), "R9");
+                        return;
+                    }
                     // R10: thread the ghost CSPRNG tape through callers of the randomness source
                     let last = p.path.segments.last().map(|s| s.ident.to_string()).unwrap_or_default();
                     if self.fx.tape_fns.contains(&last) {
